@@ -197,4 +197,13 @@ example :
     (ScopeRun.run ScopeRun.init evs).comp.fired = [1, 0] ∧ (ScopeRun.run ScopeRun.init evs).bad = false := by
   decide
 
+/-- failing enters: a scope whose disposable raises while entering, and one cancelled while its disposable is
+still entering, are rolled back – registered, entered and left at once – and the parent completes -/
+example :
+    let evs := [ScopeRun.Ev.openScope 0 true false { name := ['a'] }, .openFailing 0 { name := ['b'] },
+                .spawn 0 false, .openGated 1 { name := ['c'] }, .cancel 1, .threadCtor 0, .exit 0 false]
+    (ScopeRun.run ScopeRun.init evs).comp.fired = [1, 2, 0] ∧ (ScopeRun.run ScopeRun.init evs).comp.err = false ∧
+      (ScopeRun.run ScopeRun.init evs).bad = false := by
+  decide
+
 end Haiway.C09
